@@ -24,7 +24,9 @@ import vf
 
 PID = "C17"
 TEST = "TestVerifC17"
-GROUPS = ["wallet", "blockrelay", "messenger", "controller", "cache", "validators", "attester"]
+GROUPS = ["wallet", "blockrelay", "messenger", "controller", "cache", "validators", "attester",
+          # the REST (MEV-boost) surface of the block relay, and two more pairs of the re-derived pair table
+          "registrar", "bids", "restcfg", "exechead", "syncagg", "bestvotes", "bidstrategy"]
 # (package of the driver, test binary name); the controller driver lives inside the controller package
 # because it reuses the C03 controller harness (package-internal)
 DRIVERS = {
@@ -33,7 +35,13 @@ DRIVERS = {
 }
 # pinned rendering: the groups in which the suspected defects D9 make TLC find a violation of Disciplined
 PINNED_VIOLATES = {"wallet": True, "blockrelay": True, "messenger": True, "controller": True,
-                   "cache": False, "validators": False, "attester": False}
+                   "cache": False, "validators": False, "attester": False,
+                   "registrar": False, "bids": False, "restcfg": True, "exechead": False, "syncagg": False,
+                   "bestvotes": False, "bidstrategy": False}
+# renderings of a CLASS of change that must violate Disciplined (non-vacuity of the entries of the Guard table
+# that no defect of the pinned tree exercises): cfg -> what it renders
+MUST_VIOLATE = {"MC_Concurrency_inplace_registrar.cfg":
+                "the registration round alters the published controlled-validators map in place"}
 
 # Guard table keys -> how an access site is recognised in the source (file suffix, regex on the source line).
 # The names are the variables of Concurrency!Guard; anything else racing inside Vouch is reported under the
@@ -54,6 +62,19 @@ SITES = [
     ("cache.blockRootToSlot", "services/cache/standard/", r"\bs\.blockRootToSlot\b"),
     ("validators.maps", "services/validatorsmanager/standard/", r"\bs\.validators(ByIndex|ByPubKey)\b|\bs\.validatorPubKeyToIndex\b"),
     ("attester.attested", "services/attester/standard/", r"\bs\.attested\b"),
+    # the entries of a published controlled-validators map (indexing), then the field itself
+    ("blockrelay.controlledValidators.entries", "services/blockrelay/standard/", r"\bcontrolledValidators\["),
+    ("blockrelay.controlledValidators", "services/blockrelay/standard/", r"\bcontrolledValidators\b"),
+    ("blockrelay.builderBidsCache", "services/blockrelay/standard/", r"\bs\.builderBidsCache\b|\bslotBuilderBids\b"),
+    ("blockrelay.signedValidatorRegistrations", "services/blockrelay/standard/", r"\bs\.signedValidatorRegistrations\b"),
+    ("blockrelay.latestValidatorRegistrations", "services/blockrelay/standard/", r"\bs\.latestValidatorRegistrations\b"),
+    ("util.builders", "util/builders.go", r"\bbuilders\b"),
+    ("cache.executionChainHead", "services/cache/standard/", r"\bs\.executionChainHead(Root|Height)\b"),
+    ("syncaggregator.beaconBlockRoots", "services/synccommitteeaggregator/standard/", r"\bs\.beaconBlockRoots\b"),
+    ("controller.subscriptionInfos", "services/controller/standard/", r"\bs\.subscriptionInfos\b"),
+    ("controller.pendingAttestations", "services/controller/standard/", r"\bs\.pendingAttestations\b"),
+    ("bestproposal.priorBlocksVotes", "strategies/beaconblockproposal/best/", r"\bs\.priorBlocksVotes\b"),
+    ("builderbid.relayPubkeys", "strategies/builderbid/", r"\bs\.relayPubkeys\b"),
 ]
 
 
@@ -127,7 +148,9 @@ def run_group(g, schedules, reps, tag):
         ids = [s["sc"] for s in remaining]
         remaining = remaining[ids.index(last["sc"]) + 1:]
         if rounds > 12:
-            raise vf.Broken("driver of group %s keeps dying" % g)
+            # every death is a Fatal event of its own (a verdict); the remaining schedules of the group are not run
+            vf.log("driver of group %s died %d times of a fatal runtime error: remaining %d schedules skipped" % (g, rounds, len(remaining)))
+            break
     return rows
 
 
@@ -265,8 +288,8 @@ def schedules(tier):
 
 
 def reps_for(g, tier):
-    quick = {"wallet": 3, "blockrelay": 6, "controller": 6}
-    thorough = {"wallet": 10, "blockrelay": 40, "controller": 40}
+    quick = {"wallet": 40, "controller": 6, "bidstrategy": 6}
+    thorough = {"wallet": 400, "blockrelay": 40, "controller": 40, "registrar": 60, "restcfg": 40, "bidstrategy": 40}
     if tier == "quick":
         return quick.get(g, 12)
     return thorough.get(g, 200)
@@ -280,7 +303,7 @@ def run_all(v, scs, tier, tag, gs):
         build(kind)
     rows = []
     t0 = time.time()
-    with concurrent.futures.ThreadPoolExecutor(max_workers=4) as ex:
+    with concurrent.futures.ThreadPoolExecutor(max_workers=6) as ex:
         futs = {g: ex.submit(run_group, g, by_group.get(g, []), reps_for(g, tier), tag) for g in gs if by_group.get(g)}
         for g in gs:
             if g in futs:
@@ -412,15 +435,26 @@ def run(tier):
     if full:
         if tier == "thorough":
             v.add_mc(vf.tlc_exhaustive(PID, "Concurrency", "MC_Concurrency_big.cfg", timeout=1500))
-        # non-vacuity of the lock discipline: the pinned rendering of the suspected defects must violate Disciplined
-        for g in GROUPS:
-            r = vf.tlc(PID, "mc-pinned-" + g, "Concurrency", "MC_Concurrency_pinned_%s.cfg" % g, workers=2, timeout=600)
-            if PINNED_VIOLATES[g]:
+        # non-vacuity of the lock discipline: the pinned rendering of the suspected defects must violate Disciplined,
+        # and so must the rendering of an in-place registration round (small models: run side by side)
+        with concurrent.futures.ThreadPoolExecutor(max_workers=4) as ex:
+            futs = {g: ex.submit(vf.tlc, PID, "mc-pinned-" + g, "Concurrency", "MC_Concurrency_pinned_%s.cfg" % g, workers=1, timeout=600)
+                    for g in GROUPS}
+            must = {cfg: ex.submit(vf.tlc, PID, "mc-" + cfg[len("MC_Concurrency_"):-4], "Concurrency", cfg, workers=1, timeout=600)
+                    for cfg in MUST_VIOLATE}
+            for g in GROUPS:
+                r = futs[g].result()
+                if PINNED_VIOLATES[g]:
+                    if not (r["kind"] == "invariant" and r["violated"] == "Disciplined"):
+                        raise vf.Broken("the pinned rendering of group %s does not violate Disciplined (%s %s): the lock "
+                                        "discipline model is vacuous" % (g, r["kind"], r["violated"]))
+                elif not r["ok"]:
+                    raise vf.Broken("the pinned rendering of group %s violates %s" % (g, r["violated"]))
+            for cfg, what in MUST_VIOLATE.items():
+                r = must[cfg].result()
                 if not (r["kind"] == "invariant" and r["violated"] == "Disciplined"):
-                    raise vf.Broken("the pinned rendering of group %s does not violate Disciplined (%s %s): the lock "
-                                    "discipline model is vacuous" % (g, r["kind"], r["violated"]))
-            elif not r["ok"]:
-                raise vf.Broken("the pinned rendering of group %s violates %s" % (g, r["violated"]))
+                    raise vf.Broken("%s (%s) does not violate Disciplined (%s %s): the lock discipline model is vacuous"
+                                    % (cfg, what, r["kind"], r["violated"]))
     scs = [s for s in schedules(tier) if s["g"] in gs]
     per = {}
     for s in scs:
